@@ -41,7 +41,7 @@ _R["$fields"].types.update({
 register(Assumed("pymarkdown/general/main_presentation.py::MainPresentation.format_scan_error", pure=True, returns="Optional[str]",
                  why="string formatting only (one loop over __cause__); result content is not part of any obligation"))
 register(Assumed("pymarkdown/general/main_presentation.py::MainPresentation.print_fix_message", pure=True,
-                 effects=["g_announced.append(file_name)"], params=["self", "file_name"],
+                 effects=["g_announced.add(file_fixed)"],
                  why="prints 'Fixed: <file>' to stdout; ghost g_announced records the announcement"))
 _R["$fields"].types.update({
     "FileScanHelper._FileScanHelper__continue_on_error": "bool",
@@ -114,3 +114,42 @@ register(Assumed("TextFile.readlines", params=[], returns="List[str]", fresh_res
                           "forall(lambda k: result[k].endswith('\\n'), 0, len(result) - 1)"],
                  why="text-mode readlines(): every element non-empty, a newline only as last character, all but the last "
                      "element end with a newline (universal newlines translate \\r\\n and \\r); may raise UnicodeDecodeError"))
+
+# ---- file system (ghost g_files: paths created or written by this run that currently exist)
+_R["$fields"].types.update({"sys.stdin": "List[str]", "TempFile.name": "str"})
+register(Assumed("tempfile.NamedTemporaryFile", params=["mode", "delete"], returns="TempFile", fresh_result=True,
+                 raises=[Raises("OSError")],
+                 ensures=["result.name not in g_files", "len(result.name) > 0"],
+                 effects=["g_files.add(result.name)"],
+                 why="creates a new, uniquely named file (name not in use) and returns an open handle; may raise OSError"))
+register(Assumed("tempfile.NamedTemporaryFile.__exit__", params=[], pure=True,
+                 why="closing the handle; with delete=False the file stays (the call sites that rely on deletion use the "
+                     "per-site contract NTF_DELETE_EXIT)"))
+register(Assumed("os.remove", params=["path"], raises=[Raises("OSError", when="path not in g_files")],
+                 effects=["g_files.discard(path)"], pure=True,
+                 why="removes the file; raises FileNotFoundError/OSError if it does not exist (other OS failures not modelled)"))
+register(Assumed("os.path.exists", params=["path"], returns="bool", pure=True, ensures=["implies(path in g_files, result)"],
+                 why="a file this run created and has not removed exists"))
+register(Assumed("shutil.copyfile", params=["src", "dst"], raises=[Raises("OSError")], pure=True,
+                 effects=["g_written.add(dst)"],
+                 why="copies content of src over dst (dst is truncated first); ghost g_written records dst"))
+register(Assumed("TempFile.write", params=["text"], raises=[Raises("OSError")], pure=True, why="write to an open temp file"))
+
+for _n in ("continue_on_error", "primary_subparser", "x_fix_debug", "x_fix_file_debug", "x_fix_no_rescan_log", "x_test_stdin_fault",
+           "return_code_scheme"):
+    PROTECTED_FIELDS["ns." + _n] = "argparse.Namespace attribute: never stored to after parse_args (structural obligation C15::namespace_readonly)"
+
+register(Assumed("pymarkdown/general/main_presentation.py::MainPresentation.print_scan_failure", modifies=["$presentation_state"],
+                 effects=["g_printed.append(scan_failure)"],
+                 why="output sink (stdout, or the result list of the API's presentation subclass): records the failure once; "
+                     "writes only the presentation's own state; ghost g_printed records what was emitted, in order"))
+register(Assumed("pymarkdown/general/main_presentation.py::MainPresentation.print_pragma_failure", modifies=["$presentation_state"],
+                 effects=["g_pragma_errors.append((scan_file, line_number))"],
+                 why="output sink for pragma errors (stderr or API result list)"))
+
+PROTECTED_FIELDS["number_of_scan_failures"] = "PluginManager.number_of_scan_failures: stored only in PluginManager.__init__/initialize/log_scan_failure (structural obligation C18::protected[number_of_scan_failures])"
+
+for _f in ("_FileScanHelper__plugins", "_FileScanHelper__tokenizer", "_FileScanHelper__presentation", "_FileScanHelper__handle_error"):
+    PROTECTED_FIELDS[_f] = "stored only in FileScanHelper.__init__ (structural obligation C15::protected[FileScanHelper.*])"
+
+PROTECTED_FIELDS["owning_manager"] = "PluginScanContext.owning_manager: stored only in PluginScanContext.__init__ (structural obligation C07::protected[owning_manager])"
